@@ -15,6 +15,32 @@ NO_DESUGAR = bool(os.environ.get("VERIF_NO_DESUGAR"))
 # ------------------------------------------------------------------------------------------
 
 
+def short_ty_of(types, i, depth=0):
+    """short printable form of a type (last path segment, with ADT / dyn / tuple arguments)"""
+    t = types[i]
+    k = t.get("k")
+    if k == "adt":
+        seg = t["path"].split("::")[-1]
+        inner = []
+        if depth < 3:
+            for a in t.get("args", []):
+                ta = types[a]
+                if ta.get("k") in ("adt", "dyn", "tuple"):
+                    inner.append(short_ty_of(types, a, depth + 1))
+        return seg + ("<" + ",".join(inner) + ">" if inner else "")
+    if k == "ref":
+        return ("&mut " if t["mut"] else "&") + short_ty_of(types, t["t"], depth + 1)
+    if k == "dyn":
+        return "dyn " + "+".join(x.split("::")[-1] for x in t.get("traits", []))
+    if k == "param":
+        return t["name"]
+    if k == "closure":
+        return "{closure}"
+    if k == "tuple":
+        return "(" + ",".join(short_ty_of(types, a, depth + 1) for a in t.get("elems", [])) + ")"
+    return t["s"]
+
+
 class Facts:
     def __init__(self, path):
         with open(path) as f:
@@ -35,6 +61,8 @@ class Facts:
         for c in d["consts"]:
             self.consts.setdefault(c["path"], c)
         self.bodies = {}
+        # promoted constants that are a reference to a field-less enum variant (`x == Enum::Variant`)
+        self.promoted = {(p_["owner"], p_["idx"]): p_ for p_ in d.get("promoted", [])}
         self.capture_names = {b["key"]: [c["name"] for c in b.get("captures", [])] for b in d["bodies"] if b.get("captures")}
         import inline
 
@@ -89,6 +117,9 @@ class Facts:
         return self.types[i]["s"]
 
     def short_ty(self, i, depth=0):
+        return short_ty_of(self.types, i, depth)
+
+    def _short_ty_unused(self, i, depth=0):
         t = self.types[i]
         k = t.get("k")
         if k == "adt":
@@ -441,6 +472,9 @@ class Body:
                 self.qual = self.path
             return
         if self.qual is not None:
+            return
+        if raw.get("qual_override"):
+            self.qual = raw["qual_override"]
             return
         if "impl_self" in raw:
             st = f.short_ty(raw["impl_self"])
